@@ -358,6 +358,20 @@ func (f *Frame) execUnOp(ins *ssa.UnOp, st *State) {
 			v.T = u.defs.Define("ld_"+ins.Name(), v.T)
 			u.assume(st, typeFacts(v.T, elem))
 			u.assume(st, u.ptrBound(v.T, elem))
+			// a reference read from a heap class this unit has not written yet existed before the call: it is
+			// none of the unit's own allocations
+			if x.LV != nil && x.LV.Class != "" && (x.LV.Kind == "field" || x.LV.Kind == "elem" || x.LV.Kind == "ptr") {
+				if srt, known := u.classSort[x.LV.Class]; known {
+					if cur := u.heapGet(st, x.LV.Class, srt); cur.S == u.genConst(0, x.LV.Class, srt).S {
+						switch elem.Underlying().(type) {
+						case *types.Pointer, *types.Map, *types.Chan:
+							u.assume(st, App("<", SBool, v.T, u.allocBase))
+						case *types.Slice:
+							u.assume(st, App("<", SBool, App("s_arr", SInt, v.T), u.allocBase))
+						}
+					}
+				}
+			}
 		}
 		// assumed facts about library globals (e.g. badger.DefaultIteratorOptions)
 		if g, isG := ins.X.(*ssa.Global); isG && g.Pkg != nil {
